@@ -62,3 +62,7 @@ def run(ctx):
         want.append((b.name, {}, plans(b, quick)))
     SJ.run_session_jobs(ctx, 'C14', want, 'harness.props.C14', ('FromDict', 'Load'))
     ctx.exhaustive = False
+
+
+def replay(body):
+    return SJ.replay(body)
